@@ -546,6 +546,15 @@ func (e *specEnv) evalCall(n *ECall) sv {
 		need(2)
 		as := args()
 		return sv{app(n.Fun, as[0].t, as[1].t), tInt}
+	case "sortedflag":
+		// ghost: 2 = last sorted by a stable sort, 1 = by an unstable sort, 0 = unknown
+		need(1)
+		a := args()[0]
+		return sv{sel(c.heapGet("GH_sorted", "(Array Int Int)"), c.refOf(a)), tInt}
+	case "flit":
+		// float64 constant given by its IEEE-754 bit pattern
+		need(1)
+		return sv{app("f64_lit", args()[0].t), tF64}
 	case "ownedref":
 		need(1)
 		return sv{sel(c.heapGet("GH_owned", "(Array Int Bool)"), args()[0].t), tBool}
@@ -742,6 +751,10 @@ func (e *specEnv) evalCall(n *ECall) sv {
 
 // refOf returns the reference (object/array/map id) held by a value.
 func (c *FnCtx) refOf(a sv) string {
+	if isInterface(a.ty) {
+		// a container carried by an interface value
+		return ite(app("(_ is VSlice)", a.t), app("s-arr", app("vslice", a.t)), ite(app("(_ is VMap)", a.t), app("vmap", a.t), app("s-arr", app("dec_slice", app("vpay", a.t)))))
+	}
 	switch types.Unalias(a.ty).Underlying().(type) {
 	case *types.Slice:
 		return app("s-arr", a.t)
